@@ -38,19 +38,20 @@ OPS = {
     'reg2-unreg1': [('reg', 'o2', 't0'), ('unreg', 'o1', 't1')],
     'unreg1-rereg1': [('unreg', 'o1', 't0'), ('reg', 'o1', 't1')],
     'dupreg-unknownunreg': [('reg', 'o1', 't0'), ('unreg', 'o3', 't0')],
+    'reg2-unreg1-rereg1': [('reg', 'o2', 't0'), ('unreg', 'o1', 't0'), ('reg', 'o1', 't1')],
 }
 
 
 def _subs(tier):
     out = []
     ls = [2, 3] if tier == 'quick' else [1, 2, 3]
-    ops = ['none', 'reg2', 'unreg1-rereg1', 'dupreg-unknownunreg'] if tier == 'quick' else list(OPS)
+    ops = ['none', 'reg2', 'unreg1-rereg1', 'dupreg-unknownunreg', 'reg2-unreg1-rereg1'] if tier == 'quick' else list(OPS)
     for L, cyc, op, prio in itertools.product(ls, ['default', True, False], ops, ['low', 'high']):
         if op == 'none' and prio == 'high':
             continue
         if tier == 'quick' and prio == 'high' and op != 'reg2':
             continue
-        if tier == 'quick' and L == 3 and op == 'unreg1-rereg1':
+        if tier == 'quick' and L == 3 and op in ('unreg1-rereg1', 'reg2-unreg1-rereg1'):
             continue
         params = [[f'd{i}', 0, T] for i in range(L)] + [['H', 0, 4 * T]]
         ts = sorted({o[2] for o in OPS[op]})
@@ -78,7 +79,8 @@ def bounds_text(tier):
 
 def required_goals(tier):
     return ['wrapped_around', 'stopped_in_last_state', 'zero_duration_state', 'late_registration_effective_next_change',
-            'unregistered_object_skipped', 'op_at_change_instant', 'duplicate_registration_refused'] + \
+            'unregistered_object_skipped', 'op_at_change_instant', 'duplicate_registration_refused',
+            'reregistered_object_moved_to_the_end'] + \
         (['second_period'] if tier == 'thorough' else [])
 
 
@@ -168,6 +170,8 @@ def run(shape, args, ctx):
                     ctx.goal('late_registration_effective_next_change')
                 if not any(n == 'o1' for n, _ in st['registered_before']):
                     ctx.goal('unregistered_object_skipped')
+                if [n for n, _ in st['registered_before']] == ['o2', 'o1']:
+                    ctx.goal('reregistered_object_moved_to_the_end')
             else:
                 ctx.require(not new_calls, 'actions invoked without a state change')
                 if st['records'] >= 1:
